@@ -1,17 +1,26 @@
 From Coq Require Import String.
-Require Import OV.Base.Bytes OV.Base.Py OV.Base.PyInt OV.Base.Str OV.Base.IO OV.Base.C13_Types.
-Require Import OV.Gen.C13_StopWatch OV.Model.C13.
+Require Import OV.Base.Bytes OV.Base.Py OV.Base.PyInt OV.Base.PyFloat OV.Base.Str OV.Base.IO OV.Base.C13_Types.
+Require Import OV.Gen.C13_StopWatch OV.Model.C13 OV.Model.C13_Z OV.Model.C13_Float.
 From Coq Require Extraction ExtrOcamlBasic.
 Open Scope Z_scope.
 
-(* args: mode ("run" = every call, "last" = only the last call), durations (comma separated "N" | "D" = default | int),
-   ops (comma separated tokens), then one or more clocks (comma separated readings).
+(* args: mode, durations (comma separated "N" | "D" = default | number), ops (comma separated tokens), then one or
+   more clocks (comma separated readings).
+   mode "run" / "last": T := Z, numbers are decimal integers; "frun" / "flast": T := binary64, a number is written
+   <m>p<e> and denotes the double m * 2^e exactly (|m| < 2^53; the harness sends math.frexp of the double), outputs
+   are float.hex().  "last" / "flast" print only the last call.
    Output: per clock the calls joined by "|", clocks joined by "#"; a call is
    result;ticks;state,started,stopped,splits,duration *)
 
-Definition opt_Z (b : bytes) : option Z := if is_op "N" b then None else Some (arg_Z b).
+Section Driver.
+Variable T : Type.
+Variable N : num T.
+Variable rd : bytes -> T.          (* read a number *)
+Variable pr : T -> bytes.          (* print a number *)
 
-Definition parse_op (tok : bytes) : option op :=
+Definition opt_num (b : bytes) : option T := if is_op "N" b then None else Some (rd b).
+
+Definition parse_op (tok : bytes) : option (op T) :=
   let parts := split_char 58%N tok in
   let name := nth_arg parts 0 in
   let arg := nth_arg parts 1 in
@@ -21,8 +30,8 @@ Definition parse_op (tok : bytes) : option op :=
   else if is_op "rs" name then Some OResume
   else if is_op "rt" name then Some ORestart
   else if is_op "sl" name then Some OSplit
-  else if is_op "el" name then Some (OElapsed (if has_arg then opt_Z arg else gen_elapsed_default_maximum))
-  else if is_op "lo" name then Some (OLeftover (if has_arg then arg_bool arg else gen_leftover_default_return_none))
+  else if is_op "el" name then Some (OElapsed (if has_arg then opt_num arg else gen_elapsed_default_maximum T))
+  else if is_op "lo" name then Some (OLeftover (if has_arg then arg_bool arg else gen_leftover_default_return_none T))
   else if is_op "ex" name then Some OExpired
   else if is_op "hs" name then Some OHasStarted
   else if is_op "hp" name then Some OHasStopped
@@ -32,29 +41,29 @@ Definition parse_op (tok : bytes) : option op :=
   else if is_op "wx" name then Some (OExit has_arg)     (* the __exit__ of a real with block: wx / wx:V / wx:B *)
   else None.
 
-Fixpoint parse_ops (toks : list bytes) : option (list op) :=
+Fixpoint parse_ops (toks : list bytes) : option (list (op T)) :=
   match toks with
   | [] => Some []
   | t :: r => match parse_op t, parse_ops r with Some o, Some l => Some (o :: l) | _, _ => None end
   end.
 
-Definition out_split (s : split) : bytes :=
-  lit "S(" ++ out_Z (sp_elapsed s) ++ [44%N] ++ out_Z (sp_length s) ++ lit ")".
-Definition out_splits (l : list split) : bytes := lit "[" ++ List.concat (map out_split l) ++ lit "]".
-Definition out_value (v : value) : bytes :=
+Definition out_split (s : split T) : bytes :=
+  lit "S(" ++ pr (sp_elapsed s) ++ [44%N] ++ pr (sp_length s) ++ lit ")".
+Definition out_splits (l : list (split T)) : bytes := lit "[" ++ List.concat (map out_split l) ++ lit "]".
+Definition out_value (v : value T) : bytes :=
   match v with
   | VSelf => lit "self"
   | VNone => lit "None"
-  | VNum z => out_Z z
+  | VNum z => pr z
   | VBool b => out_bool b
   | VSplit s => out_split s
   | VSplits l => out_splits l
   end.
 Definition out_state (s : wstate) : bytes :=
   match s with SNone => lit "N" | SStarted => lit "R" | SStopped => lit "P" end.
-Definition out_watch (w : watch) : bytes :=
-  out_state (w_state w) ++ [44%N] ++ out_opt out_Z (w_started w) ++ [44%N] ++ out_opt out_Z (w_stopped w)
-  ++ [44%N] ++ out_splits (w_splits w) ++ [44%N] ++ out_opt out_Z (w_duration w).
+Definition out_watch (w : watch T) : bytes :=
+  out_state (w_state w) ++ [44%N] ++ out_opt pr (w_started w) ++ [44%N] ++ out_opt pr (w_stopped w)
+  ++ [44%N] ++ out_splits (w_splits w) ++ [44%N] ++ out_opt pr (w_duration w).
 
 (* a with block whose body raised: __exit__ returned a false value (None), so the harness sees the
    body's exception propagate: PROP:<kind> *)
@@ -62,38 +71,50 @@ Definition with_exit_kind (tok : bytes) : option bytes :=
   let parts := split_char 58%N tok in
   if is_op "wx" (nth_arg parts 0) && Nat.ltb 1 (List.length parts) then Some (nth_arg parts 1) else None.
 
-Definition out_call (t0 : nat) (tok : bytes) (c : cfg * res value) : bytes :=
+Definition out_call (t0 : nat) (tok : bytes) (c : cfg T * res (value T)) : bytes :=
   let '((w, t), r) := c in
   (match r, with_exit_kind tok with
    | Ok VNone, Some k => lit "PROP:" ++ k
    | _, _ => out_res out_value r
    end) ++ [59%N] ++ out_Z (Z.of_nat (t - t0)) ++ [59%N] ++ out_watch w.
 
-Fixpoint out_calls (t0 : nat) (toks : list bytes) (l : list (cfg * res value)) : list bytes :=
+Fixpoint out_calls (t0 : nat) (toks : list bytes) (l : list (cfg T * res (value T))) : list bytes :=
   match l with
   | [] => []
   | c :: r => out_call t0 (hd [] toks) c :: out_calls (snd (fst c)) (tl toks) r
   end.
 
-Definition run_clock (last_only : bool) (w0 : watch) (toks : list bytes) (ops : list op) (clock : bytes) : bytes :=
-  let readings := map arg_Z (split_char 44%N clock) in
-  let clk := fun n => nth n readings 0 in
-  let calls := out_calls 0 toks (trace clk ops w0 0) in
+Definition run_clock (last_only : bool) (w0 : watch T) (toks : list bytes) (ops : list (op T)) (clock : bytes) : bytes :=
+  let readings := map rd (split_char 44%N clock) in
+  let clk := fun n => nth n readings (n_zero N) in
+  let calls := out_calls 0 toks (trace N clk ops w0 0) in
   if last_only then List.last calls (lit "-") else join bar calls.
 
-Definition run_duration (last_only : bool) (toks : list bytes) (ops : list op) (clocks : list bytes) (dur : bytes) : bytes :=
-  let duration := if is_op "D" dur then gen_init_default_duration else opt_Z dur in
-  match init duration with
+Definition run_duration (last_only : bool) (toks : list bytes) (ops : list (op T)) (clocks : list bytes) (dur : bytes) : bytes :=
+  let duration := if is_op "D" dur then gen_init_default_duration T else opt_num dur in
+  match init N duration with
   | Exn e => out_exn e
   | Ok w0 => join [35%N] (map (run_clock last_only w0 toks ops) clocks)
   end.
 
-(* durations: comma separated list of "N" | "D" | int; one run per duration x clock *)
-Definition run (args : list bytes) : bytes :=
-  let mode := nth_arg args 0 in
+Definition run_with (last_only : bool) (args : list bytes) : bytes :=
   let toks := match nth_arg args 2 with [] => [] | s => split_char 44%N s end in
   match parse_ops toks with
   | None => lit "BADOP"
-  | Some ops => join [35%N] (map (run_duration (is_op "last" mode) toks ops (skipn 3 args)) (split_char 44%N (nth_arg args 1)))
+  | Some ops => join [35%N] (map (run_duration last_only toks ops (skipn 3 args)) (split_char 44%N (nth_arg args 1)))
   end.
+End Driver.
+
+(* <m>p<e>: the double m * 2^e (exact: the harness sends a 53-bit m) *)
+Definition rd_float (b : bytes) : float64 :=
+  let parts := split_char 112%N b in
+  f_normalize (arg_Z (nth_arg parts 0)) (arg_Z (nth_arg parts 1)).
+
+Definition run (args : list bytes) : bytes :=
+  let mode := nth_arg args 0 in
+  if is_op "run" mode then run_with Z Znum arg_Z out_Z false args
+  else if is_op "last" mode then run_with Z Znum arg_Z out_Z true args
+  else if is_op "frun" mode then run_with float64 Fnum rd_float float_hex false args
+  else if is_op "flast" mode then run_with float64 Fnum rd_float float_hex true args
+  else lit "BADMODE".
 Extraction "model.ml" run.
